@@ -31,6 +31,7 @@ type FileCfg struct {
 	Points  []string          `json:"points"`  // function names ("Recv.Name" or "Name"), "*" = all
 	Go      bool              `json:"go"`      // rewrite go statements
 	Gosched bool              `json:"gosched"` // rewrite runtime.Gosched()
+	ChanBuf bool              `json:"chanbuf"` // rewrite make(chan T) into make(chan T, 1) (request/response handshakes stay equivalent; needed because unbuffered rendezvous is not supported)
 	Chan    bool              `json:"chan"`    // rewrite channel receive/send and blocking select into scheduler-aware polling (buffered / close-only channels; unbuffered rendezvous is NOT supported)
 	Skip    []string          `json:"skip"`    // functions excluded from "*"
 	Atomic  []string          `json:"atomic"`  // functions executed as one scheduler step (points inside are suppressed); "Name@1" = only when vsched.AtomicLevel >= 1
@@ -453,6 +454,13 @@ func instrument(src, dst string, fc FileCfg) error {
 				// cannot know statically whether X is a channel: only flag the obvious case
 			}
 		case *ast.CallExpr:
+			if fc.ChanBuf {
+				if id, ok := x.Fun.(*ast.Ident); ok && id.Name == "make" && len(x.Args) == 1 {
+					if _, ok := x.Args[0].(*ast.ChanType); ok {
+						add(off(x.Rparen), off(x.Rparen), ", 1")
+					}
+				}
+			}
 			if fc.Gosched {
 				if se, ok := x.Fun.(*ast.SelectorExpr); ok {
 					if id, ok := se.X.(*ast.Ident); ok && id.Name == "runtime" && se.Sel.Name == "Gosched" {
